@@ -123,9 +123,23 @@ Proof.
   vm_compute. repeat split.
 Qed.
 
+(** Round 9: [Vars.is_env] (model of tools::is_env, the assignment test in front of a command line) IS the regex of
+    the source: equal, on every text, to the search of the AST regenerated from tools.rs on every run
+    (Gen/ToolsRegexes.v via drive/regexsites.py) -- a changed literal breaks this proof. *)
+From Cicada Require Import Base.Regex Gen.ToolsRegexes Proofs.ToolsRegexProofs.
+Theorem C09_is_env_is_source_regex : forall s, is_env s = rx_search rx_is_env s.
+Proof. exact is_env_is_source_regex. Qed.
+Check C09_is_env_is_source_regex : forall s, is_env s = rx_search rx_is_env s.
+(** non-vacuity:  _a1=x<newline>y  yes;  1a=x  no;  a-b=x  no;  a  no *)
+Example C09_source_regex_nonvacuous :
+  rx_search rx_is_env [95;97;49;61;120;10;121] = true /\ rx_search rx_is_env [49;97;61;120] = false /\
+  rx_search rx_is_env [97;45;98;61;120] = false /\ rx_search rx_is_env [97] = false.
+Proof. vm_compute. repeat split. Qed.
+
 Print Assumptions C09_abs.
 Print Assumptions C09_step.
 Print Assumptions C09_step_invariant.
 Print Assumptions C09_full.
 Print Assumptions C09_pwd.
 Print Assumptions C09_read_remainder_verbatim.
+Print Assumptions C09_is_env_is_source_regex.
